@@ -56,8 +56,8 @@ Number(o, g, ix, iy) == CASE o = "columns_down"       -> ix * g.ny + (g.ny - 1 -
                           [] o = "columns_from_right" -> (g.nx - 1 - ix) * g.ny + (g.ny - 1 - iy)
 Numbering(o, g) == {<<ix, iy, Number(o, g, ix, iy)>> : ix \in 0..(g.nx - 1), iy \in 0..(g.ny - 1)}
 
-DerivCases == {[kind |-> "deriv", order |-> o, g |-> g, op |-> op, p |-> p, ix |-> ix, iy |-> iy] :
-                 o \in Orders, g \in {gg \in Grids : gg.x0 = 1}, op \in Ops, p \in Fields, ix \in 0..(IF Deep THEN 5 ELSE 3), iy \in 0..(IF Deep THEN 5 ELSE 3)}
+DerivCases(o) == {[kind |-> "deriv", order |-> o, g |-> g, op |-> op, p |-> p, ix |-> ix, iy |-> iy] :
+                 g \in {gg \in Grids : gg.x0 = 1}, op \in Ops, p \in Fields, ix \in 0..(IF Deep THEN 5 ELSE 3), iy \in 0..(IF Deep THEN 5 ELSE 3)}
 
 \* --- ADMT: D = Dperp n n^T + Dpar t t^T with n = grad(psi)/|grad(psi)|, Dpar = 1, Dperp = 1/a.
 \* a * N^2 * R * div(D grad f) as an integer (N = |grad psi|^2, R = x):
@@ -91,7 +91,7 @@ UnitExps == <<0, -3, 3>>
 \* only the direction of grad psi enters D: the ADMT operator is unchanged when the flux map is multiplied by 10^e
 FluxScaleExps == <<0, -8, 8>>
 VARIABLE c
-Init == c \in DerivCases \cup AdmtCases
+Init == (\E o \in Orders : c \in DerivCases(o)) \/ c \in AdmtCases
 Next == UNCHANGED c
 Spec == Init /\ [][Next]_c
 
